@@ -51,12 +51,12 @@ def runPure (p : Prog) (avail : Nat) (c : Ctx) : List Action → Bool × Ctx
           else
             let c2 := enterCall c f args
             if 0 < f.nlcls ∧ avail - stackReq f args.length < f.nlcls then
-              match afterCall (c2.setErr .estack) false 0 dst with
+              match afterCall (c2.setErr .estack) false 0 dst f.spec args with
               | (false, c4) => (false, c4)
               | (true, c5) => runPure p avail c5 rest
             else
               let (ok, c3) := runPure p (avail - stackReq f args.length - f.nlcls) (pushNils c2 f.nlcls) f.body
-              match afterCall c3 ok f.nlcls dst with
+              match afterCall c3 ok f.nlcls dst f.spec args with
               | (false, c4) => (false, c4)
               | (true, c5) => runPure p avail c5 rest
       | a =>
@@ -156,7 +156,7 @@ theorem runPure_rel (p : Prog) (R : Ctx → Ctx → Prop)
     (herr : ∀ c e, R c (c.setErr e))
     (hsimple : ∀ c a b c', stepSimple c a = (b, c') → R c c')
     (hcall : ∀ c f args nl ok c3 dst, args.length ≤ f.nargs →
-        R (pushNils (enterCall c f args) nl) c3 → R c (afterCall c3 ok nl dst).2)
+        R (pushNils (enterCall c f args) nl) c3 → R c (afterCall c3 ok nl dst f.spec args).2)
     (avail : Nat) (c : Ctx) (body : List Action) : R c (runPure p avail c body).2 := by
   fun_induction runPure p avail c body with
   | case1 avail c => exact hrefl c
@@ -482,11 +482,47 @@ theorem skel_leaveFrame_frameSkel {c c3 : Ctx} {n m : Nat} (h : c3.skel = frameS
   simp only [frameSkel_stack, List.append_assoc]
   exact List.take_left' hlen
 
-theorem skel_afterCall {c c3 : Ctx} {n nl : Nat} (h : c3.skel = frameSkel c n (n + nl)) (ok : Bool) (dst : Nat) :
-    (afterCall c3 ok nl dst).2.skel = c.skel := by
-  have hl := skel_leaveFrame_frameSkel (skel_popVals_frameSkel h) ok false
+@[simp] theorem skel_setRec0 (c : Ctx) (t : String) : (setRec0 c t).skel = c.skel := by
+  unfold setRec0; simp only; split <;> rfl
+
+theorem skel_copyBackOne (c : Ctx) (e : Expr) (av : Val) : (copyBackOne c e av).2.skel = c.skel := by
+  unfold copyBackOne
+  cases e <;> simp
+  · split
+    · simp
+    · split <;> simp
+
+theorem skel_copyBack (c : Ctx) (bs : List Bool) (es : List Expr) (i : Nat) : (copyBack c bs es i).2.skel = c.skel := by
+  induction bs generalizing c es i with
+  | nil => simp [copyBack]
+  | cons b bs ih =>
+    cases es with
+    | nil => simp [copyBack]
+    | cons e es =>
+      simp only [copyBack]
+      split
+      · have h1 := skel_copyBackOne c e (c.slot (c.argIdx i))
+        generalize copyBackOne c e (c.slot (c.argIdx i)) = r at h1
+        obtain ⟨b1, c1⟩ := r
+        cases b1
+        · exact h1
+        · simp only; rw [ih]; exact h1
+      · exact ih _ _ _
+
+theorem skel_afterCall {c c3 : Ctx} {n nl : Nat} (h : c3.skel = frameSkel c n (n + nl)) (ok : Bool) (dst : Nat)
+    (spec : List Bool) (args : List Expr) :
+    (afterCall c3 ok nl dst spec args).2.skel = c.skel := by
+  have hp := skel_popVals_frameSkel h
+  have hcb : (if ok = true then copyBack (popVals c3 nl) spec args 0 else (false, popVals c3 nl)).2.skel = frameSkel c n n := by
+    split
+    · rw [skel_copyBack]; exact hp
+    · exact hp
   unfold afterCall
-  generalize leaveFrame (popVals c3 nl) ok false = r at hl
+  generalize (if ok = true then copyBack (popVals c3 nl) spec args 0 else (false, popVals c3 nl)) = rb at hcb
+  obtain ⟨ok1, c3a⟩ := rb
+  simp only at hcb ⊢
+  have hl := skel_leaveFrame_frameSkel hcb ok1 false
+  generalize leaveFrame c3a ok1 false = r at hl
   obtain ⟨c4, r, cap⟩ := r
   simp only at hl ⊢
   cases r with
@@ -508,7 +544,7 @@ theorem runPure_skel (p : Prog) (avail : Nat) (c : Ctx) (body : List Action) :
     rw [h] at this; exact this
   · intro c f args nl ok c3 dst hle h
     rw [skel_enterCall c f args nl hle] at h
-    exact skel_afterCall h ok dst
+    exact skel_afterCall h ok dst f.spec args
 
 /-! ### the API entry points restore the skeleton -/
 
@@ -598,6 +634,9 @@ theorem skel_callByName (p : Prog) (c : Ctx) (k : Cache) (name : String) (args :
   · exact ⟨by simp, hk⟩
   · exact skel_callFun p c k _ args hk
 
+@[simp] theorem skel_consumeInput (c : Ctx) : (consumeInput c).skel = c.skel := by
+  unfold consumeInput; split <;> rfl
+
 theorem skel_runBegin (p : Prog) (c : Ctx) (k : Cache) (hk : Consistent p k) :
     (runBegin p c k).2.1.skel = c.skel ∧ Consistent p (runBegin p c k).2.2 := by
   unfold runBegin
@@ -643,7 +682,9 @@ theorem skel_loop (p : Prog) (c : Ctx) (k : Cache) (hk : Consistent p k) :
     obtain ⟨ok1, c2, k1⟩ := rb
     simp only at hb ⊢
     have h3 : (if (ok1 || c2.err == Err.enoerr) = true ∧ p.end_.isSome = true ∧ c2.exitLevel < xlGlobal then consumeInput c2 else c2).skel = c2.skel := by
-      split <;> rfl
+      split
+      · exact skel_consumeInput c2
+      · rfl
     generalize (if (ok1 || c2.err == Err.enoerr) = true ∧ p.end_.isSome = true ∧ c2.exitLevel < xlGlobal then consumeInput c2 else c2) = c3 at h3
     have hn := skel_runEnd p (ok1 || c2.err == Err.enoerr) c3 k1 hb.2
     generalize runEnd p (ok1 || c2.err == Err.enoerr) c3 k1 = re at hn
